@@ -30,6 +30,9 @@ SHAPES = {
     "tr-multi_a": ("tr({3},multi_a(2,{0},{1},{2}))", False, True, 2),
     "tr-sortedmulti_a": ("tr({3},sortedmulti_a(2,{0},{1}))", False, True, 2),
     "tr-mini": ("tr({3},and_v(v:pk({0}),older(10)))", False, True, 1),
+    # a multi_a() *fragment* inside a miniscript leaf (the satisfier's own walk over the keys, not the BIP387 leaf's)
+    "tr-mini-multi_a": ("tr({3},and_v(v:multi_a(2,{0},{1},{2}),older(10)))", False, True, 2),
+    "tr-mini-multi_a-1of3": ("tr({3},or_d(multi_a(1,{0},{1},{2}),and_v(v:pk({3}),older(20))))", False, True, 1),
     # one key named in several leaves: every leaf commits to its own tapleaf hash, so the key signs each leaf separately;
     # key {3} signs nothing, which decides the leaf that can be spent
     "tr-shared-key-second-leaf": ("tr({3},{{multi_a(2,{0},{3}),pk({0})}})", False, True, 1),
